@@ -391,6 +391,36 @@ func (x *Explorer) ormCall(fr *Frame, st *State, oc *ORMCall, ins *ssa.Call, arg
 				ev.RowObj = o.ID
 				ev.Row = x.snapshotRow(st, o, t)
 				ev.Old = x.resolveOld(st, o, t, oc.Kind, ev.Row, len(st.events))
+				// between the basis read and this write no row of the same ledger table with a possibly
+				// equal key may have been written (the basis would be stale when the keys coincide, e.g. a
+				// transfer to one's own account spelled differently)
+				if old := ev.Old; old != nil && old.From > 0 && old.Stale == "" && ledgerTables[t.Name] {
+					if src := &st.events[old.From-1]; src.Kind == "read" {
+						key := x.keyOf(st, t, ev.Row)
+						for j := old.From; j < len(st.events); j++ {
+							w := &st.events[j]
+							if w.Kind != "write" || w.Table != t || w.Row == nil || w.OpKind == "deleterange" {
+								continue
+							}
+							if k2 := x.keyOf(st, t, w.Row); k2 != key && !keysDistinct(st, key, k2) {
+								old.Stale = "a row of " + t.Name + " with a possibly equal key (" + k2 + " vs " + key + ") was written after the basis read of this row: when the two keys coincide the write overwrites that row's new content with stale data"
+								break
+							}
+						}
+					}
+				}
+				// a row written inside a loop must have been read (or written) in the same iteration: the
+				// explorer analyses one symbolic iteration, and from the second iteration on a basis taken
+				// before the loop is the content an earlier iteration already replaced
+				if old := ev.Old; old != nil && old.From > 0 && old.Stale == "" && tag != "" && t.Name != "" {
+					if src := st.events[old.From-1]; !strings.HasPrefix(src.Loop, tag) {
+						where := "before the loop"
+						if src.Loop != "" {
+							where = "in the enclosing loop " + src.Loop
+						}
+						old.Stale = "the row written in loop " + tag + " is based on content obtained " + where + ": from the second iteration on it overwrites what an earlier iteration stored under the same key (lost update), unless the key differs in every iteration"
+					}
+				}
 			}
 		} else {
 			ev.Old = &OldRow{Unknown: "row argument is not a locally known object: " + vstr(keyArgs[0])}
@@ -437,6 +467,38 @@ func (x *Explorer) keyOf(st *State, t *Table, row map[string]Val) string {
 	return strings.Join(ks, "|")
 }
 
+// keysDistinct: two primary keys (components joined by "|") provably denote different rows.
+func keysDistinct(st *State, k1, k2 string) bool {
+	a, b := strings.Split(k1, "|"), strings.Split(k2, "|")
+	if len(a) != len(b) {
+		return true
+	}
+	isConst := func(s string) bool {
+		if s == "" {
+			return false
+		}
+		return s[0] == '"' || (s[0] >= '0' && s[0] <= '9')
+	}
+	for i := range a {
+		if a[i] == b[i] {
+			continue
+		}
+		if isConst(a[i]) && isConst(b[i]) {
+			return true
+		}
+		if strings.HasPrefix(a[i], "newid:") || strings.HasPrefix(b[i], "newid:") {
+			return true
+		}
+		p, q := sortedPair(a[i], b[i])
+		for _, f := range []string{"AddrEq(" + p + ", " + q + ")", "Eq(" + p + ", " + q + ")", "BytesEq(" + p + ", " + q + ")"} {
+			if v, ok := st.known(f); ok && !v {
+				return true
+			}
+		}
+	}
+	return false
+}
+
 // resolveOld determines what the store held under the written key, at write time.
 func (x *Explorer) resolveOld(st *State, o *Obj, t *Table, kind string, row map[string]Val, now int) *OldRow {
 	if kind == "insert" {
@@ -470,9 +532,9 @@ func (x *Explorer) resolveOld(st *State, o *Obj, t *Table, kind string, row map[
 					}
 				}
 				if ev.OpKind == "delete" {
-					return &OldRow{Absent: true}
+					return &OldRow{Absent: true, From: i + 1}
 				}
-				return &OldRow{Row: ev.Row}
+				return &OldRow{Row: ev.Row, From: i + 1}
 			}
 			// a write to a possibly equal key of the same table between the read and now
 		case "read":
@@ -549,12 +611,18 @@ func (x *Explorer) basisRead(st *State, t *Table, key string, now int) int {
 }
 
 func (x *Explorer) oldFromRead(st *State, ev *Event, t *Table) *OldRow {
+	from := 0
+	for i := range st.events {
+		if &st.events[i] == ev {
+			from = i + 1
+		}
+	}
 	switch st.errs[ev.ErrID] {
 	case 2:
-		return &OldRow{Absent: true}
+		return &OldRow{Absent: true, From: from}
 	case 1:
 		if o := st.mem[ev.RowObj]; o != nil {
-			return &OldRow{Row: x.pristineRow(st, o, t)}
+			return &OldRow{Row: x.pristineRow(st, o, t), From: from}
 		}
 	}
 	return &OldRow{Unknown: "the read of this key has an undetermined result on this path"}
